@@ -469,6 +469,77 @@ func c08Conservation(r *verdict.Run, e *emu, kind string, nconn, nops int, rng *
 		if h.Text() != strconv.Itoa(nconn*nops) {
 			bad("hincrby/lost-update", fmt.Sprintf("HINCRBY x %d but the field is %s", nconn*nops, h), nil)
 		}
+	case "sortstore":
+		// a multi-element write (SORT ... STORE rewrites its destination) against nothing but readers: no other writer
+		// is around whose waiting for the lock would keep the readers apart from it
+		sargs := []string{"RPUSH", "ssrc"}
+		for i := 0; i < 3000; i++ {
+			sargs = append(sargs, fmt.Sprintf("%04d", (i*7919)%3000))
+		}
+		fin.Do(sargs...)
+		fin.Do("SORT", "ssrc", "STORE", "sdst")
+		var stop atomic.Bool
+		var seen atomic.Int64
+		wg.Add(1)
+		go func() {
+			defer wg.Done()
+			cn, err := e.dial()
+			if err != nil {
+				return
+			}
+			defer cn.Close()
+			cn.Timeout = 30 * time.Second
+			for i := 0; !stop.Load(); i++ {
+				switch i % 3 {
+				case 0:
+					cn.Do("SORT", "ssrc", "STORE", "sdst")
+				case 1:
+					cn.Do("SORT", "ssrc", "DESC", "LIMIT", "0", "3000", "STORE", "sdst")
+				case 2:
+					cn.Do("SORT", "ssrc", "ALPHA", "STORE", "sdst")
+				}
+			}
+		}()
+		for c := 0; c < nconn-1; c++ {
+			wg.Add(1)
+			go func(c int) {
+				defer wg.Done()
+				cn, err := e.dial()
+				if err != nil {
+					return
+				}
+				defer cn.Close()
+				cn.Timeout = 30 * time.Second
+				for i := 0; !stop.Load(); i++ {
+					seen.Add(1)
+					n := -1
+					switch (c + i) % 3 {
+					case 0:
+						if v, err := cn.Do("LRANGE", "sdst", "0", "-1"); err == nil && v.Kind == '*' {
+							n = len(v.Elems)
+						}
+					case 1:
+						if v, err := cn.Do("LLEN", "sdst"); err == nil && v.Kind == ':' {
+							n = int(v.Int)
+						}
+					case 2:
+						if v, err := cn.Do("LPOS", "sdst", "2999"); err == nil && v.Kind == ':' {
+							n = 3000
+						} else if err == nil && v.Null {
+							n = 0
+						}
+					}
+					if n >= 0 && n != 3000 {
+						bad("sortstore/destination-seen-half-written", fmt.Sprintf("the destination of SORT ssrc STORE sdst always holds the same 3000 elements, a reader found %d (command %d of its loop)", n, (c+i)%3), nil)
+						return
+					}
+				}
+			}(c)
+		}
+		time.Sleep(time.Duration(nops) * 2 * time.Millisecond)
+		stop.Store(true)
+		wg.Wait()
+		r.Count("sortstore_observations", seen.Load())
 	case "multidb":
 		// every database has its own lock, so commands on different databases really run at the same time: whatever the
 		// code shares between databases (hashing, id counters, tables of the set of data stores) is exercised only here.
@@ -834,6 +905,15 @@ func c08Conservation(r *verdict.Run, e *emu, kind string, nconn, nops int, rng *
 			largs = append(largs, fmt.Sprintf("e%04d", i))
 		}
 		fin.Do(largs...)
+		// a list that is only ever rewritten as a whole by SORT ... STORE (3000 elements, the same ones every time)
+		{
+			sargs := []string{"RPUSH", "sortsrc"}
+			for i := 0; i < 3000; i++ {
+				sargs = append(sargs, fmt.Sprintf("%04d", (i*7919)%3000))
+			}
+			fin.Do(sargs...)
+			fin.Do("SORT", "sortsrc", "STORE", "sortdst")
+		}
 		stop := atomic.Bool{}
 		observations := int64(0)
 		writer := func(c int) {
@@ -876,7 +956,9 @@ func c08Conservation(r *verdict.Run, e *emu, kind string, nconn, nops int, rng *
 					}
 					cn.Do(a...)
 				case 3:
-					if i%2 == 0 {
+					if i%3 == 2 {
+						cn.Do("SORT", "sortsrc", []string{"ASC", "DESC"}[(i/3)%2], "STORE", "sortdst")
+					} else if i%2 == 0 {
 						cn.Do("LMOVE", "ring", "ring", "LEFT", "RIGHT")
 					} else {
 						cn.Do("RPOPLPUSH", "ring", "ring")
@@ -894,12 +976,18 @@ func c08Conservation(r *verdict.Run, e *emu, kind string, nconn, nops int, rng *
 			cn.Timeout = 30 * time.Second
 			for i := 0; !stop.Load(); i++ {
 				atomic.AddInt64(&observations, 1)
-				switch (c + i) % 9 {
+				switch (c + i) % 10 {
+				case 9:
+					v, err := cn.Do("LRANGE", "sortdst", "0", "-1")
+					if err == nil && v.Kind == '*' && len(v.Elems) != 3000 {
+						bad("bigviews/sort-store-seen-half-done", fmt.Sprintf("LRANGE of the destination of SORT src STORE dst (always the same 3000 elements) returned %d elements", len(v.Elems)), nil)
+						return
+					}
 				case 7:
-					// the key count: four fixed keys, the set (there or not), and all or none of the 200 mk keys
+					// the key count: six fixed keys, the set (there or not), and all or none of the 200 mk keys
 					v, err := cn.Do("DBSIZE")
-					if err == nil && v.Kind == ':' && v.Int != 4 && v.Int != 5 && v.Int != 204 && v.Int != 205 {
-						bad("bigviews/dbsize-sees-half-applied-command", fmt.Sprintf("DBSIZE = %d while a writer alternates MSET and UNLINK/DEL of 200 keys in single commands (must be 4, 5, 204 or 205)", v.Int), nil)
+					if err == nil && v.Kind == ':' && v.Int != 6 && v.Int != 7 && v.Int != 206 && v.Int != 207 {
+						bad("bigviews/dbsize-sees-half-applied-command", fmt.Sprintf("DBSIZE = %d while a writer alternates MSET and UNLINK/DEL of 200 keys in single commands (must be 6, 7, 206 or 207)", v.Int), nil)
 						return
 					}
 				case 8:
@@ -991,7 +1079,7 @@ func c08Run(r *verdict.Run, race bool, nhist, ncons int, tag string) {
 	st := &linStats{}
 	perChild := 25
 	nsh := (nhist + perChild - 1) / perChild
-	kinds := []string{"incr", "append", "list", "sets", "mset", "rename", "bigviews", "multidb"}
+	kinds := []string{"incr", "append", "list", "sets", "mset", "rename", "bigviews", "multidb", "sortstore"}
 	var raceMu sync.Mutex
 	raceSeen := map[string]string{}
 	parallel(nsh+ncons, 12, func(shard int) {
@@ -1076,10 +1164,10 @@ func c08Run(r *verdict.Run, race bool, nhist, ncons int, tag string) {
 
 func checkC08(r *verdict.Run) {
 	r.Rule = "(1) many small concurrent histories (3-6 connections x 5-10 operations on 1-3 disjoint key groups; single-key read-modify-write and multi-key commands, FLUSHDB/FLUSHALL [ASYNC|SYNC] in single-group histories; unique written values) recorded at the client boundary with one monotonic clock and checked for linearizability with porcupine against the reference model (partitioned by key group; a final single-client read of every key is part of the history); " +
-		"(2) conservation runs: N x M INCR/DECR/HINCRBY sums, APPEND tokens, unique list ids pushed/popped/moved (exactly once), SMOVE between two sets under SINTERCARD/SUNION observers, MSET tag vectors under MGET observers, MSETNX/DEL all-or-nothing, RENAME ping-pong under EXISTS observers, and atomic views of large values (two distant bytes of a 1 MiB string written by one BITFIELD, a 256 KiB value overwritten by one SETRANGE, 300 hash fields set by one HSET, a 1500-element list that is only rotated, 200 keys written by one MSET and removed by one UNLINK/DEL, 300 members added by one SADD and removed by one SREM) under BITCOUNT/BITFIELD_RO/GET/HVALS/LRANGE/EXISTS/SCARD/DBSIZE/KEYS observers, and the same counters/sets/lists/hashes in four databases at once (per database: INCR replies a permutation of 1..N, nothing lost, DBSIZE exact; this is the only place where commands really run in parallel, one lock per database); yields are injected before/after the data store lock. distinct = overlapping command pairs actually observed + conservation kinds"
-	c08Run(r, false, tierPick(r, 300, 10000), tierPick(r, 8, 64), "plain")
+		"(2) conservation runs: N x M INCR/DECR/HINCRBY sums, APPEND tokens, unique list ids pushed/popped/moved (exactly once), SMOVE between two sets under SINTERCARD/SUNION observers, MSET tag vectors under MGET observers, MSETNX/DEL all-or-nothing, RENAME ping-pong under EXISTS observers, and atomic views of large values (two distant bytes of a 1 MiB string written by one BITFIELD, a 256 KiB value overwritten by one SETRANGE, 300 hash fields set by one HSET, a 1500-element list that is only rotated, 200 keys written by one MSET and removed by one UNLINK/DEL, 300 members added by one SADD and removed by one SREM) under BITCOUNT/BITFIELD_RO/GET/HVALS/LRANGE/EXISTS/SCARD/DBSIZE/KEYS observers, the destination of SORT ... STORE under readers only (LRANGE/LLEN/LPOS, no other writer), and the same counters/sets/lists/hashes in four databases at once (per database: INCR replies a permutation of 1..N, nothing lost, DBSIZE exact; this is the only place where commands really run in parallel, one lock per database); yields are injected before/after the data store lock. distinct = overlapping command pairs actually observed + conservation kinds"
+	c08Run(r, false, tierPick(r, 300, 10000), tierPick(r, 9, 72), "plain")
 	if r.Tier == "thorough" {
-		c08Run(r, true, 300, 16, "race-build")
+		c08Run(r, true, 300, 18, "race-build")
 	}
 	r.Assume("porcupine v1.3.0 decides the recorded histories; the sequential specification is the reference model; a checker timeout (20 s) makes a history inconclusive, never a violation")
 }
